@@ -407,6 +407,7 @@ def run(ctx, V):
     global NUM
     proofs_ok = vlib.proof_gate(ctx, V)
     NUM = devparse.read_numbers(ctx.repo)
+    devparse.configure(ctx.repo)
     # the extracted model must reflect the regenerated Gen/GenConsts.v (MAX_MATCH_POS, script tables) of THIS tree
     ok, log, failing = ctx.coq_make(["Extract/ExSpec.vo"])
     if not ok:
@@ -424,6 +425,13 @@ def run(ctx, V):
     for f in missing:
         V.violation("enumeration", f, dict(file=f, kind="missing"), "%s is listed in Makefile.am but does not exist" % f)
 
+    # ---- the fingerprints in the regenerated Gen/GenSpecs.v (what C17_terms_faithful is about)
+    gtxt = open(os.path.join(ctx.coq, "Gen", "GenSpecs.v")).read()
+    m = re.search(r"Definition spec_digests : list N := \[([^\]]*)\]", gtxt)
+    digests = [int(x) for x in m.group(1).split(";") if x.strip()] if m else []
+    gen_entries = re.findall(r"\(\* ([^ ]+) \*\), (spec_\d+)\)", gtxt[gtxt.find("Definition all_specs"):gtxt.find("Definition shipped_files")])
+    if len(digests) != len(gen_entries):
+        V.tie_broken("tie", "translator", "GenSpecs.v: %d fingerprints for %d specifications" % (len(digests), len(gen_entries)))
     # ---- corpus + shipped files: R-SPEC, R-CTX, monitor
     cases = [(f, f, open(os.path.join(ctx.repo, f), "rb").read()) for f in found]
     res = check_files(ctx, V, impl, model, cases, True, "shipped")
@@ -457,6 +465,14 @@ def run(ctx, V):
             for fl in p["m"]["fails"]:
                 if fl not in p["r"]["fails"]:
                     violation_for(V, p, fl, "independent reader's tree")
+            # the fingerprints proved of the Coq terms (C17_terms_faithful) are those of the real parser's trees
+            try:
+                real_dg = [devparse.digest_plain(x) for x in devparse.plain_of_dump(p["real_dump"])]
+            except Exception as ex:
+                real_dg = "unreadable dump: %r" % ex
+            want_dg = [digests[i] for i, (f, _) in enumerate(gen_entries) if f == p["rel"]]
+            if real_dg != want_dg:
+                V.tie_broken("correspondence", "R-SPEC", "%s: fingerprint of the real parser's trees %s differs from the fingerprint of the Coq terms %s" % (p["rel"], real_dg, want_dg), case=p["rel"])
             # R-SPEC
             if p["m"]["dump"] != p["real_dump"]:
                 V.tie_broken("correspondence", "R-SPEC", "%s: %s" % (p["rel"], first_diff(p["m"]["dump"], p["real_dump"])), case=p["rel"])
@@ -614,6 +630,7 @@ def replay(ctx, V, path):
         print("note: a translator fails on the current tree (%s); continuing with the last generated constants" % str(ex)[:200])
     ok, log, failing = ctx.coq_make(["Extract/ExSpec.vo"])
     NUM = devparse.read_numbers(ctx.repo)
+    devparse.configure(ctx.repo)
     impl, model = build(ctx)
     if rec.get("verdict") == "unproved":
         print("recorded: %s" % json.dumps(rec.get("no_longer_checks"), indent=1)[:3000])
